@@ -260,7 +260,11 @@ def check_eq_hash(ctx, led, v, rule="C07.eq"):
         conj = list(ev_.args)
     elif isinstance(ev_, App) and ev_.op == "ite":
         c, a, b = ev_.args
+        cc = c.args[0] if isinstance(c, App) and c.op == "truth" else c
         if isinstance(b, Const) and b.v is False:
+            conj = [c, a]
+        elif isinstance(b, Term) and isinstance(cc, Term) and (b == cc or b == c):
+            # `cond and key_equal` as one expression: the falsy condition itself is the result
             conj = [c, a]
         elif isinstance(a, Const) and a.v is False:
             conj = [T.BoolOp("not", (c,)), b]
